@@ -175,6 +175,27 @@ def mutual_cases(rng, n):
             if "perm" in c:
                 c["perm"] = list(reversed(new))
             c.pop("split", None)
+    # an assigned value that mentions a caller's symbol spelled like the ITERATOR of a custom sequence somewhere in the hierarchy
+    # (K := it + 1): refused, or substituted as it stands -- never bound by the iterator of the compiled sum
+    extra = [c for c in c05.build_cases(rng, 6 * n, 2, p_rep=0.7, repeated_only=True) if c["mode"] in ("expr", "total", "partial")]
+    k = 0
+    for c in extra:
+        its = [nd["repetition"]["sequence"]["iterator_symbol"] for nd, _ in H._nodes(c["routine"])
+               if nd.get("repetition") and nd["repetition"]["sequence"]["kind"] == "custom"]
+        keys = [kk for kk, _ in c["assign"] if kk.rsplit(".", 1)[-1] not in H.COUNT_NAMES + H.POW_EXPONENTS and "#" not in kk]
+        if not its or not keys or c.get("functions"):
+            continue
+        a = rng.choice(keys)
+        e = rng.choice([E.sym(its[0]), E.op("add", E.sym(its[0]), E.num(1)), E.op("mul", E.num(2), E.sym(its[0]))])
+        c["assign"] = [[kk, (["str", E.to_str(e), e] if kk == a else v)] for kk, v in c["assign"]]
+        c["mode"] = "expr"
+        c.pop("split", None)
+        if "perm" in c:
+            c["perm"] = list(reversed(c["assign"]))
+        cs.append(c)
+        k += 1
+        if k >= max(6, n // 4):
+            break
     return cs
 
 
